@@ -116,6 +116,7 @@ class FakeUsb:
         self.settings = {}
         self._reply = [0]
         self.worlds = None          # address tuple -> World (several links on one dongle)
+        self.unrouted = 0
 
     def set_configuration(self, n):
         pass
@@ -136,6 +137,11 @@ class FakeUsb:
             w = self.worlds.get(addr)
             if w is None:
                 self._reply = [0]       # nobody listens on this address
+                self.unrouted += 1
+                if self.unrouted > 300:     # (mutants) nothing reaches any peer any more: end the run, not quiet
+                    for x in self.worlds.values():
+                        x.done = x.wedged = True
+                    vthreading._do(vcore.Op('radio.tx', self, lambda: False, lambda: None))
                 return
         self._reply = w.transfer([int(x) for x in data])
 
